@@ -75,7 +75,8 @@ var ctxNames = []string{"top", "arr", "obj"}
 
 func run(c *mon.Ctx) {
 	var cells [32][3][40]int64
-	nfe := len(jsonfe.FEs)
+	fes := append(append([]jsonfe.FE{}, jsonfe.FEs...), jsonfe.OptionFEs...)
+	nfe := len(fes)
 	confusion := make([][2][2]int64, nfe)
 	bySrc := map[string]int64{}
 	shrunk := 0
@@ -108,8 +109,11 @@ func run(c *mon.Ctx) {
 		if c.WantSample() && len(x) > 3 && src != "enum256" {
 			c.Sample(map[string]any{"input": mon.B(append([]byte{}, x...)), "source": src, "R": []string{"invalid", "valid", "empty"}[v], "viable_prefix": k})
 		}
-		for fi := range jsonfe.FEs {
-			fe := &jsonfe.FEs[fi]
+		for fi := range fes {
+			fe := &fes[fi]
+			if fi >= len(jsonfe.FEs) && src == "enum39" && len(x) >= 4 && !c.Thorough() {
+				continue // the bulk enumeration goes to the plain front-ends only
+			}
 			err, _ := jsonfe.Call(fe, x, jsongen.Whole)
 			c.Eval(1)
 			a, b := 0, 0
@@ -136,7 +140,7 @@ func run(c *mon.Ctx) {
 		}
 	}
 	for fi, m := range confusion {
-		n := jsonfe.FEs[fi].Name
+		n := fes[fi].Name
 		c.CoverN("fe:"+n+":reject/invalid", m[0][0])
 		c.CoverN("fe:"+n+":reject/valid", m[0][1])
 		c.CoverN("fe:"+n+":accept/invalid", m[1][0])
